@@ -1,4 +1,5 @@
 """C17 - includes resolve relative to the including file and run in global scope."""
+import copy
 import functools
 import posixpath
 import random
@@ -117,7 +118,18 @@ class World:
                     stmts.append({'function': {'name': name, 'args': ['v' + fid], 'statements': [
                         {'expr': {'name': 'loc' + fid, 'expr': {'string': 'local'}}}, {'include': {'includes': [inc]}}, c08.log_stmt('after include in ' + name),
                         {'return': {'expr': {'variable': 'v' + fid}}}]}})
-                    stmts.append({'expr': {'name': 'ri' + fid, 'expr': {'function': {'name': name, 'args': [{'string': 'arg'}]}}}})
+                    how = r.choice(['direct', 'direct', 'arrayIndexOf', 'systemPartial', 'arrayLastIndexOf'])
+                    if how == 'direct':
+                        stmts.append({'expr': {'name': 'ri' + fid, 'expr': {'function': {'name': name, 'args': [{'string': 'arg'}]}}}})
+                    elif how == 'systemPartial':
+                        stmts.append({'expr': {'name': 'rp' + fid, 'expr': {'function': {'name': 'systemPartial', 'args': [{'variable': name}, {'string': 'arg'}]}}}})
+                        stmts.append({'expr': {'name': 'ri' + fid, 'expr': {'function': {'name': 'rp' + fid, 'args': []}}}})
+                        self.classes.add('include-inside-function-called-back')
+                    else:
+                        # the including function is reached through a library function that calls it back
+                        stmts.append({'expr': {'name': 'ri' + fid, 'expr': {'function': {'name': how, 'args': [
+                            {'function': {'name': 'arrayNew', 'args': [{'string': 'arg'}]}}, {'variable': name}]}}}})
+                        self.classes.add('include-inside-function-called-back')
                     self.classes.add('include-inside-function')
             elif k < 0.84:
                 stmts.append({'return': {}})
@@ -173,6 +185,8 @@ class World:
             return None
         if kind_of(child) != kind_of(frm) or posixpath.dirname(normloc(child)) != posixpath.dirname(normloc(frm)):
             self.classes.add('directory-or-base-change')
+        if r.random() < 0.25:
+            return {'url': ref, 'system': False}      # the optional member spelled out (matters for a model that is executed as built)
         return {'url': ref}
 
 
@@ -186,7 +200,7 @@ def gen_world(rnd, size):
     return w, root, inline, rnd.choice(['none', 'raise'])
 
 
-def run_impl(w, root, inline, missing_mode):
+def run_impl(w, root, inline, missing_mode, as_built=False):
     files_text = {}
     for loc, v in w.files.items():
         files_text[loc] = '\n'.join(gm.print_model(v[1])) + '\n' if v[0] == 'ok' else v[1]
@@ -205,7 +219,8 @@ def run_impl(w, root, inline, missing_mode):
         opts['systemPrefix'] = w.sys
     if not inline:
         opts['urlFn'] = functools.partial(impl.bs.module.url_file_relative, root)
-    model = impl.bs.parse_script(files_text[normloc(root)])
+    # the root script is either parsed from its text or handed over as the model a host built (optional members spelled out)
+    model = copy.deepcopy(w.files[normloc(root)][1]) if as_built else impl.bs.parse_script(files_text[normloc(root)])
     try:
         impl.bs.execute_script(model, opts)
         res = ('ok', None)
@@ -257,14 +272,19 @@ def run_ref(w, root, inline):
             res = ('runtime-error', e.message)
     except jumpvm.interp.RefRuntimeError as e:
         res = ('runtime-error', 'Undefined function "%s"' % e.name)
-    user = {k: ('<function>' if isinstance(v, jumpvm.VMFunction) else v) for k, v in g.items()}
+    user = {k: ('<function>' if isinstance(v, (jumpvm.VMFunction, jumpvm.interp.RefPartial, jumpvm.interp.LibraryRef)) else v) for k, v in g.items()}
     return res, [normloc(u) for u in vm.fetched], logs, user
 
 
-def check_world(w, root, inline, missing_mode):
-    d = {'kind': 'world', 'root': root, 'inline': inline, 'system_prefix': w.sys, 'missing_mode': missing_mode,
+def check_world(w, root, inline, missing_mode, as_built=False):
+    d = {'kind': 'world', 'root': root, 'inline': inline, 'system_prefix': w.sys, 'missing_mode': missing_mode, 'as_built': as_built,
          'files': {loc: (v[0], v[1]) for loc, v in w.files.items()}}
-    a = run_impl(w, root, inline, missing_mode)
+    if as_built:
+        try:
+            impl.bs.validate_script(copy.deepcopy(w.files[normloc(root)][1]))
+        except Exception as e:  # pylint: disable=broad-except
+            raise Violation('harness: the built root model is not schema-valid: %s' % e, d, 'harness-invalid-model') from e
+    a = run_impl(w, root, inline, missing_mode, as_built)
     if a[0][0] == 'recursion':
         return None
     b = run_ref(w, root, inline)
@@ -294,13 +314,14 @@ def run_shard(ctx, spec):
     def prop(seed, size):
         rnd = random.Random(seed)
         w, root, inline, missing_mode = gen_world(rnd, size)
-        b = check_world(w, root, inline, missing_mode)
+        as_built = rnd.random() < 0.4
+        b = check_world(w, root, inline, missing_mode, as_built)
         if b is None:
             ctx.discard('recursion')
             return
         nt = w.depth_seen >= 3 and 'directory-or-base-change' in w.classes and 'include-after-nested-include' in w.classes
         ctx.case(digest([root, inline, w.sys, {k: v for k, v in w.files.items()}]), nt,
-                 ['world', 'outcome:' + b[0][0], 'depth=%d' % w.depth_seen, 'sys:' + str(w.sys)] + sorted(w.classes),
+                 ['world', 'root-model-as-built' if as_built else 'root-parsed-from-text', 'outcome:' + b[0][0], 'depth=%d' % w.depth_seen, 'sys:' + str(w.sys)] + sorted(w.classes),
                  {'root': root, 'inline': inline, 'systemPrefix': w.sys, 'files': {k: ('\n'.join(gm.print_model(v[1])) if v[0] == 'ok' else v[1]) for k, v in list(w.files.items())[:6]}})
     run_hypothesis(ctx, prop, [st.integers(0, 2 ** 32 - 1), st.integers(1, 4)], spec['n'], salt=spec['k'])
 
@@ -308,4 +329,4 @@ def run_shard(ctx, spec):
 def replay(detail):
     w = World(random.Random(0), detail['system_prefix'])
     w.files = {loc: (v[0], v[1]) for loc, v in detail['files'].items()}
-    check_world(w, detail['root'], detail['inline'], detail.get('missing_mode', 'none'))
+    check_world(w, detail['root'], detail['inline'], detail.get('missing_mode', 'none'), detail.get('as_built', False))
